@@ -56,6 +56,27 @@ func c12NestedShort(fset *token.FileSet, stmts []ast.Stmt) []string {
 						walk([]ast.Stmt{e}, depth+"  ")
 					}
 				}
+			case *ast.ForStmt:
+				h := "for "
+				if x.Init == nil && x.Post == nil {
+					if x.Cond != nil {
+						h += c12SrcShort(fset, x.Cond)
+					}
+				} else {
+					var i, cnd, pst string
+					if x.Init != nil {
+						i = c12SrcShort(fset, x.Init)
+					}
+					if x.Cond != nil {
+						cnd = c12SrcShort(fset, x.Cond)
+					}
+					if x.Post != nil {
+						pst = c12SrcShort(fset, x.Post)
+					}
+					h += i + "; " + cnd + "; " + pst
+				}
+				out = append(out, depth+strings.TrimSpace(h))
+				walk(x.Body.List, depth+"  ")
 			case *ast.SelectStmt:
 				out = append(out, depth+"select")
 				for _, c := range x.Body.List {
@@ -193,5 +214,26 @@ func c12CollectFacts(repo string, sb *strings.Builder) error {
 		return fmt.Errorf("StorageExecuteContext.collectGroupingTagValueIDs not found")
 	}
 	fmt.Fprintf(sb, "def collectIDsSteps : List String := %s\n", LeanStrList(c12NestedShort(fsetF, cg.Body.List)))
+
+	// ---------------- series/metric/row_broker.go: the family iterator of one shard group
+	fsetR, rb, err := ParseFile(repo, "series/metric/row_broker.go")
+	if err != nil {
+		return err
+	}
+	for _, nm := range [][2]string{{"isSameFamily", "isSameFamilySteps"}, {"reset", "familyResetSteps"}, {"HasNextFamily", "hasNextFamilySteps"}} {
+		fd := FindFunc(rb, "BrokerBatchShardFamilyIterator", nm[0])
+		if fd == nil || fd.Body == nil {
+			return fmt.Errorf("BrokerBatchShardFamilyIterator.%s not found", nm[0])
+		}
+		fmt.Fprintf(sb, "/-- BrokerBatchShardFamilyIterator.%s, statement by statement -/\ndef %s : List String := %s\n", nm[0], nm[1], LeanStrList(c12NestedShort(fsetR, fd.Body.List)))
+	}
+	less := FindFunc(rb, "familySortedRows", "Less")
+	lessExpr := ""
+	if less != nil && less.Body != nil && len(less.Body.List) == 1 {
+		if r, ok := less.Body.List[0].(*ast.ReturnStmt); ok && len(r.Results) == 1 {
+			lessExpr = c12Src(fsetR, r.Results[0])
+		}
+	}
+	fmt.Fprintf(sb, "def familySortLess : String := %q\n", lessExpr)
 	return nil
 }
